@@ -288,7 +288,7 @@ def witness_leg(run):
 def writer_leg(run):
     """Wrapper over a scripted underlying writer (model/RWriter.v): differential run + the property evaluated
     on what the scripted writer really received."""
-    n = 400000 if run.tier == "thorough" else 40000
+    n = 400000 if run.tier == "thorough" else run.scaled(40000)
     corpus = os.path.join(C.VERIF, "corpus", "C15", "writer_ops.txt")
     outs = []
     if os.path.exists(corpus):
@@ -380,7 +380,7 @@ def run(run):
         nrand = 16000000
     else:
         exh = [("medium", 3, 2), ("small", 2, 3)]
-        nrand = 240000
+        nrand = run.scaled(240000)        # anchor drift: escalated budget
     for alpha, hmax, amax in exh:
         for i in range(shards):
             jobs.append(["-mode", "exhaustive", "-alpha", alpha, "-hmax", str(hmax), "-amax", str(amax),
